@@ -363,7 +363,39 @@ def run_witness(binpath, w):
                 f0 = os.path.join(tmpdir, "w%d.gdn" % pi)
                 open(f0, "w", encoding="utf-8").write(src_)
                 b = src_.encode("utf-8")
-                offs = [i for i in range(len(b) + 1) if i == len(b) or (b[i] & 0xC0) != 0x80]
+                offs = [(i, i) for i in range(len(b) + 1) if i == len(b) or (b[i] & 0xC0) != 0x80]
+                if w.get("selections") == "lines":
+                    # also every run of whole lines (first non-blank byte of a line .. end of the text of a later line)
+                    starts, ends, at = [], [], 0
+                    for ln in src_.split("\n"):
+                        lb = ln.encode("utf-8")
+                        if ln.strip():
+                            starts.append(at + len(lb) - len(lb.lstrip()))
+                            ends.append(at + len(lb.rstrip()))
+                        at += len(lb) + 1
+                    offs += [(a, e) for a in starts for e in ends if a < e]
+                if w.get("pure_selections"):
+                    # C20 speaks of side-effect-free selections: leave out a selection that holds a `return` / `break` /
+                    # `continue`, or a `let` whose name is read after the selection (the binding cannot leave a function)
+                    import re as _re
+                    lets = [(m.start(), m.end(), _re.findall(r"\w+", m.group(1))) for m in _re.finditer(r"\blet\s+(\w+|\([^)]*\))(?:\s*:[^=\n]+)?\s*=\s*", src_)]
+                    jumps = [(m.start(), m.end()) for m in _re.finditer(r"\b(?:return|break|continue)\b[ \t]*", src_)]
+                    cix_ = {}
+                    at_ = 0
+                    for ci_, ch_ in enumerate(src_):
+                        cix_[at_] = ci_
+                        at_ += len(ch_.encode("utf-8"))
+                    cix_[at_] = len(src_)
+
+                    def pure(oe):
+                        a, e = cix_[oe[0]], cix_[oe[1]]
+                        if a == e:
+                            return not any(x <= a < y for x, y, _ in lets) and not any(x <= a < y for x, y in jumps)
+                        if any(a <= x < e for x, _ in jumps):
+                            return False
+                        rest = src_[e:]
+                        return not any(a <= x < e and any(_re.search(r"\b%s\b" % n, rest) for n in ns) for x, _, ns in lets)
+                    offs = [oe for oe in offs if pure(oe)]
                 jobs.append((pi, f0, offs))
             bad_items, failing, n_wrapped = [], [], 0
             for (pi, f0, offs) in jobs:
@@ -373,10 +405,11 @@ def run_witness(binpath, w):
                     bad_items.append("program %d: the original timed out" % pi)
                     continue
 
-                def wrap(o, f0=f0):
+                def wrap(oe, f0=f0):
+                    o = oe
                     try:
                         tmpl = w.get("command") or ["reftest-wrap-in-dbg", "{file}", "{offset}", "{offset}"]
-                        return o, subprocess.run([binpath] + [a.replace("{file}", f0).replace("{offset}", str(o)) for a in tmpl], capture_output=True, text=True, timeout=60, cwd=tmpdir)
+                        return o, subprocess.run([binpath] + [a.replace("{file}", f0).replace("{offset}", str(oe[0])).replace("{end}", str(oe[1])) for a in tmpl], capture_output=True, text=True, timeout=60, cwd=tmpdir)
                     except subprocess.TimeoutExpired:
                         return o, None
                 with ThreadPoolExecutor(max_workers=8) as ex:
@@ -384,7 +417,7 @@ def run_witness(binpath, w):
                 seen = {}
                 for o, p in wrapped:
                     if p is None or p.returncode == 101 or "panicked at" in (p.stderr or ""):
-                        bad_items.append("program %d offset %d: the refactoring crashed or timed out" % (pi, o))
+                        bad_items.append("program %d selection %d..%d: the refactoring crashed or timed out" % (pi, o[0], o[1]))
                         failing.append(w["input"][pi])
                         continue
                     if p.returncode != 0:
@@ -393,7 +426,7 @@ def run_witness(binpath, w):
 
                 def run(item, pi=pi):
                     text, o = item
-                    f1 = os.path.join(tmpdir, "w%d_at%d.gdn" % (pi, o))
+                    f1 = os.path.join(tmpdir, "w%d_at%d_%d.gdn" % (pi, o[0], o[1]))
                     open(f1, "w", encoding="utf-8").write(text)
                     try:
                         return o, text, subprocess.run([binpath, "run", f1], capture_output=True, text=True, timeout=60, cwd=tmpdir)
@@ -419,7 +452,7 @@ def run_witness(binpath, w):
                     return k
                 e0 = n_errors(f0) if w.get("check_errors_not_more") else 0
                 for o, text, r1 in ran:
-                    e1 = n_errors(os.path.join(tmpdir, "w%d_at%d.gdn" % (pi, o))) if w.get("check_errors_not_more") else 0
+                    e1 = n_errors(os.path.join(tmpdir, "w%d_at%d_%d.gdn" % (pi, o[0], o[1]))) if w.get("check_errors_not_more") else 0
                     if r1 is None:
                         why = "timed out"
                     elif e1 > e0:
@@ -428,7 +461,7 @@ def run_witness(binpath, w):
                         why = "prints %r / status %s, the original %r / status %s" % (r1.stdout[-120:], r1.returncode, r0.stdout[-120:], r0.returncode)
                     else:
                         continue
-                    bad_items.append("program %d wrapped at offset %d (%r): %s" % (pi, o, text[max(0, o - 20):o + 30], why))
+                    bad_items.append("program %d rewritten for the selection %d..%d (%r): %s" % (pi, o[0], o[1], w["input"][pi][o[0]:max(o[1], o[0] + 30)][:80], why))
                     failing.append(text)
             return {"cmd": "%s / run <%d programs, %d rewritten variants>" % ((w.get("command") or ["reftest-wrap-in-dbg"])[0], len(jobs), n_wrapped), "exit": 0, "stdout": "", "stderr": "",
                     "reproduced": bool(bad_items) or n_wrapped < w.get("min_inputs", 1), "why": ("; ".join(bad_items[:4]) if bad_items else "only %d wrapped variants" % n_wrapped)[:1800],
